@@ -450,8 +450,9 @@ theorem ThreadOK.dead {st : St} {t : Thread} (h : ThreadOK st t) : ThreadOK st t
 theorem inv_env (s : Sys) (st' : St) (hle : Le s.st st') (hi : Inv s) : Inv { s with st := st' } :=
   fun t ht => (hi t ht).le hle
 
-theorem inv_act (s : Sys) (a : Act) (hi : Inv s) : Inv (s.act a) := by
+theorem inv_act (s : Sys) (a : Act) (ha : a.isCreate = false) (hi : Inv s) : Inv (s.act a) := by
   cases a with
+  | create o => cases ha
   | spawn c n =>
     intro t ht
     simp only [Sys.act, List.mem_append, List.mem_singleton] at ht
@@ -510,18 +511,21 @@ theorem inv_act (s : Sys) (a : Act) (hi : Inv s) : Inv (s.act a) := by
           obtain ⟨t0, h0, rfl⟩ := ht'
           exact ((hi t0 h0).le ((le_exec _ _).trans (le_crash _))).dead
 
-theorem inv_run (s : Sys) (acts : List Act) (hi : Inv s) : Inv (s.run acts) := by
+theorem inv_run (s : Sys) (acts : List Act) (hn : ∀ a ∈ acts, a.isCreate = false) (hi : Inv s) : Inv (s.run acts) := by
   induction acts generalizing s with
   | nil => exact hi
-  | cons a rest ih => exact ih _ (inv_act s a hi)
+  | cons a rest ih =>
+    exact ih _ (fun b hb => hn b (List.mem_cons_of_mem _ hb)) (inv_act s a (hn a (List.mem_cons_self ..)) hi)
 
-/-- In every configuration reachable from any store with no reconcile in flight, the next
+/-- In every configuration reachable from any store with no reconcile in flight by a
+schedule without creation steps, the next
 request of every in-flight reconcile satisfies the ordering constraint in the current
 state — whatever the interleaving, the faults and the crashes so far. -/
-theorem safe_reachable (st0 : St) (acts : List Act) (t : Thread) (r : Req) (k : Resp → P)
+theorem safe_reachable (st0 : St) (acts : List Act) (hn : ∀ a ∈ acts, a.isCreate = false)
+    (t : Thread) (r : Req) (k : Resp → P)
     (ht : t ∈ (Sys.run ⟨st0, []⟩ acts).ths) (hp : t.prog = .call r k) :
     safeReq (Sys.run ⟨st0, []⟩ acts).st t.ctl t.name r = true := by
-  have hinv : Inv (Sys.run ⟨st0, []⟩ acts) := inv_run _ acts (by intro t ht; cases ht)
+  have hinv : Inv (Sys.run ⟨st0, []⟩ acts) := inv_run _ acts hn (by intro t ht; cases ht)
   have hok := hinv t ht
   have hg : guardH t.ctl t.name t.hist r := by
     have := hok.1; rw [hp] at this; exact this.1
